@@ -169,6 +169,15 @@ def check_apply(params):
         return out
     if params["supply"] == "dict" and (dict(F.ar) != ar_before or len(F.ob) != len(obmap)):
         bad("mapping-mutated", "applying the functor changed the mappings it was built from")
+    snap = ref.snapshot(d)
+    try:
+        again = F(d)
+    except Exception as e:  # noqa
+        again = e
+    if isinstance(again, Exception) or ref.snapshot(again) != ref.snapshot(Fd):
+        bad("second-application", "applying the same functor to the same diagram a second time gives %s, the first time %s" % (again, Fd))
+    if ref.snapshot(d) != snap:
+        bad("operand-mutated", "applying the functor changed the diagram it was applied to")
     want_dom = build.atoms_key(ref_ty_image(recipe[1], obmap))
     cod_atoms = tuple(_atoms(d.cod))
     want_cod = build.atoms_key(ref_ty_image(cod_atoms, obmap))
